@@ -57,6 +57,8 @@ class SimAsyncResult:
         self._pool, self._task = pool, task
 
     def ready(self):
+        # polling is a scheduling point: while the main thread looks, workers make progress
+        self._pool._tick("ready")
         return self._task.delivered
 
     def successful(self):
@@ -65,10 +67,16 @@ class SimAsyncResult:
         return bool(self._task.ok)
 
     def wait(self, timeout=None):
+        if timeout is not None:
+            self._pool._tick("wait_timeout")
+            return
         self._pool._await(lambda: self._task.delivered, "wait", self._task.tid, timeout)
 
     def get(self, timeout=None):
-        self._pool._await(lambda: self._task.delivered, "get", self._task.tid, timeout)
+        if timeout is not None and not self._task.delivered:
+            self._pool._tick("get_timeout")
+        else:
+            self._pool._await(lambda: self._task.delivered, "get", self._task.tid, timeout)
         if not self._task.delivered:
             import multiprocessing
             raise multiprocessing.TimeoutError
@@ -259,6 +267,24 @@ class SimPool:
                     ev.append(("finish", w.wid, w.task.tid))
         return ev
 
+    def _tick(self, why):
+        """The main thread yields without blocking (poll, timed wait, sleep): the scheduler
+        may fire some enabled events - how many is a scheduling decision."""
+        self.sim.probe("poll_" + why)
+        self.polls = getattr(self, "polls", 0) + 1
+        if self.polls > 200000:
+            raise HarnessError("main thread polls the pool without end")
+        n = self.sim.chooser.choose(3, "tick")        # 0, 1 or 2 events
+        # fairness: real workers do make progress while the main thread polls
+        self.idle_ticks = getattr(self, "idle_ticks", 0) + 1 if n == 0 else 0
+        if self.idle_ticks >= 3:
+            n, self.idle_ticks = 1, 0
+        for _ in range(n):
+            ev = self._enabled()
+            if not ev:
+                return
+            self._fire(ev[self.sim.chooser.choose(len(ev), "sched")])
+
     def _await(self, cond, what, tid, timeout):
         steps = 0
         while not cond():
@@ -339,6 +365,35 @@ class SimPool:
             w.py_state = _pyrandom.getstate()
             np.random.set_state(main_np)
             _pyrandom.setstate(main_py)
+
+
+class TimeShim:
+    """Stands in for the `time` module inside fast_ticc: sleep() is a scheduling point of
+    the simulator (no real time passes), the clocks advance by the simulated amount."""
+
+    def __init__(self, sim, real):
+        self.__dict__["_sim"] = sim
+        self.__dict__["_real"] = real
+        self.__dict__["_now"] = 1.0e9
+
+    def sleep(self, seconds):
+        self.__dict__["_now"] += max(0.0, float(seconds))
+        self._sim.probe("simulated_sleep")
+        for p in self._sim.pools:
+            p._tick("sleep")
+
+    def time(self):
+        self.__dict__["_now"] += 1e-6
+        return self._now
+
+    def monotonic(self):
+        return self.time()
+
+    def perf_counter(self):
+        return self.time()
+
+    def __getattr__(self, name):
+        return getattr(self._real, name)
 
 
 class MultiprocessingShim:
